@@ -55,6 +55,9 @@ def main(tier):
                     run.ob(False, "no-float|call|%s" % f.short, "C07-b no conversion through binary floating point", f.key, nm)
     run.ob(True, "no-float|census", "C07-b", "eval_decimal tokenizer+parser", sample={"locals_inspected": nloc, "float_typed": 0})
     check_literals(run, m, "C07-c")
+    # the statement is about expressions: their value is that of the standard tree (C04's tables as a premise)
+    from .c04 import precedence_tables
+    precedence_tables(run, F, {"eval_decimal": m}, PID)
     report_issues(run, {"eval_decimal": m}, tables={"T_eval", "T_prim", "T_lex"})
     run.floor("obligations", run.obligations, 25)
     return run.finish("routing of + - * / % neg to checked Decimal operations (chain check), float-type census of tokenizer/parser, literal scanner", "./check C07 --tier %s" % tier,
